@@ -55,7 +55,11 @@ func (a impAction) sx() string {
 	if a.Kind == "import" {
 		return L("import", fmt.Sprint(a.Drop), fmt.Sprint(a.Take), fmt.Sprint(a.Now))
 	}
-	return L("write", a.Path, fmt.Sprint(a.Now), opsSx(a.Ops))
+	path := a.Path
+	if path == "atomic" && !facadeBeginsTX() {
+		path = "atomic_unrepaired"
+	}
+	return L("write", path, fmt.Sprint(a.Now), opsSx(a.Ops))
 }
 
 func (c impCase) sx() string {
@@ -85,7 +89,7 @@ func parseImpCase(line string) impCase {
 		} else if a.List[0].Atom == "import" {
 			c.Script = append(c.Script, impAction{Kind: "import", Drop: int(atoi(a.List[1].Atom)), Take: int(atoi(a.List[2].Atom)), Now: atoi(a.List[3].Atom)})
 		} else {
-			c.Script = append(c.Script, impAction{Kind: "write", Path: a.List[1].Atom, Now: atoi(a.List[2].Atom), Ops: ops(a.List[3])})
+			c.Script = append(c.Script, impAction{Kind: "write", Path: strings.TrimSuffix(a.List[1].Atom, "_unrepaired"), Now: atoi(a.List[2].Atom), Ops: ops(a.List[3])})
 		}
 	}
 	return c
@@ -98,6 +102,36 @@ type impStack struct {
 	feat Feat
 	a, b ledgercontroller.Controller
 	dead bool
+}
+
+// facadeBeginsTX: does the state tracker facade of the tree under test run the handleState protocol in BeginTX
+// (fixes/01-facade-begintx)?  Probed once on a scratch stack by looking at the SQL a BeginTX on an initializing ledger emits.
+// The answer selects the atomic-bulk model the case is compared with ("atomic" / "atomic_unrepaired" in the case), so a tree
+// without the override still corresponds to a model and the monitors report the failing input.
+var facadeBeginsTXProbe struct {
+	done, yes bool
+}
+
+func facadeBeginsTX() bool {
+	if facadeBeginsTXProbe.done {
+		return facadeBeginsTXProbe.yes
+	}
+	st := NewStack(StackOpts{})
+	ctx := context.Background()
+	must(st.Sys.CreateLedger(ctx, "probe", ledger.Configuration{Bucket: "_default", Features: allOn.set()}))
+	ctrl, err := st.Sys.GetLedgerController(ctx, "probe")
+	must(err)
+	st.LogSQL = true
+	txCtrl, _, err := ctrl.BeginTX(ctx, nil)
+	must(err)
+	_ = txCtrl.Rollback(ctx)
+	for _, q := range st.SQLLog {
+		if strings.Contains(q, "pg_advisory_xact_lock") {
+			facadeBeginsTXProbe.yes = true
+		}
+	}
+	facadeBeginsTXProbe.done = true
+	return facadeBeginsTXProbe.yes
 }
 
 func newImpStack(f Feat) *impStack {
@@ -540,7 +574,7 @@ func (s *impStack) script(run *impRun, logs []ledger.Log) *impRun {
 			}
 			// C14 on the import path: the first log that was not imported reuses a stored non-empty reference (its own
 			// transaction id being free): the import must stop THERE with the reference-conflict error and without that transaction
-			if cls != "ok" {
+			if cls != "ok" && cls != "not_initializing" && cls != "log_exists" { // (refused by the state / id rules of C12: no log was replayed)
 				have := map[int64]bool{}
 				for _, l := range after.Logs {
 					have[l.ID] = true
